@@ -3,6 +3,7 @@ package rules
 import (
 	"fmt"
 	"go/token"
+	"go/types"
 	"sort"
 	"strings"
 
@@ -618,6 +619,50 @@ func unusedResult(call *ssa.Call) bool {
 func R2Model(c *Ctx) {
 	const rule = "R2-reader-model"
 	c.R.Rule(rule, "ParseInt32/ParseBool consume exactly 4 and ParseInt64 exactly 8 leading bytes (copy source is buffer[:W] or buffer[:Length()] under Length()==W; advance is buffer[W:]); CanIRead advances by the same width per ReadType; ParseBytes/ParseAtLeastBytes clamp to the buffer", 8)
+	// length prefixes are unsigned
+	for _, n := range []string{"Parser.CanIRead", "Parser.ParseBytes", "Parser.ParseAtLeastBytes"} {
+		fn := c.P.Func(PkgParser, n)
+		if fn == nil {
+			continue
+		}
+		EachCall(fn, func(call ssa.CallInstruction) {
+			name := CalleeName(call)
+			if !strings.HasPrefix(name, "(encoding/binary.") || !(strings.HasSuffix(name, ").Uint32") || strings.HasSuffix(name, ").Uint64")) {
+				return
+			}
+			v := call.Value()
+			if v == nil {
+				return
+			}
+			signed := false
+			seen := map[ssa.Value]bool{}
+			var walk func(x ssa.Value)
+			walk = func(x ssa.Value) {
+				if seen[x] || x.Referrers() == nil {
+					return
+				}
+				seen[x] = true
+				for _, r := range *x.Referrers() {
+					if cv, ok := r.(*ssa.Convert); ok {
+						if bt, ok := cv.Type().Underlying().(*types.Basic); ok {
+							switch bt.Kind() {
+							case types.Int32, types.Int16, types.Int8:
+								signed = true
+							}
+						}
+						walk(cv)
+					}
+				}
+			}
+			walk(v)
+			construct := "length prefix read unsigned"
+			if !signed {
+				c.R.Ok(rule, FuncShort(fn), construct, c.pos(call.Pos()), "the 32-bit length is widened without passing through a signed 32-bit type: it cannot become negative", true)
+			} else {
+				c.R.Bad(rule, FuncShort(fn), construct, c.pos(call.Pos()), "the 4-byte length prefix is converted through a signed narrow type: a prefix with the top bit set becomes a negative length, the pre-flight/reader accepts a field that is not there")
+			}
+		})
+	}
 	widths := map[string]int64{"Parser.ParseInt32": 4, "Parser.ParseBool": 4, "Parser.ParseInt64": 8}
 	var names []string
 	for n := range widths {
